@@ -3219,7 +3219,9 @@ fn parent(args: &Args) {
                 "None::<L> added to a stack whose real layers are ALL per-layer-filtered is not judged (None is then the only unfiltered member and per-layer-filter semantics keep emissions globally enabled); None above a stack containing per-layer filters may turn a cached `never` into `sometimes` (Layered::pick_interest, documented): there the number of `enabled` queries is not compared, everything else is".into(),
                 "with_filter(None::<F>) is compared with with_filter(accept-everything recording filter): the layer and its neighbours must observe the same".into(),
                 "after a rejecting event_enabled answer was swallowed by a known-broken cell (F5, F6) the rest of that run is not judged: hidden per-thread filter state may differ (finding F3 of C07)".into(),
-                "one live Dispatch at a time, one fresh thread per stack run; both sides of a pair use callsites of the same class in the same cache state (both fresh, or the same already-registered callsite)".into(),
+"the base collector inside Box / Arc (underneath the layers) is generated only for stacks without per-layer filters: `Filtered` registers through `LookupSpan::register_filter`, which Box<Registry> / Arc<Registry> answer with the documented panic \"does not currently support filters\"".into(),
+                "on builds with debug assertions no operation runs from a destructor during unwinding, and a FilterState assertion failure is attributed to finding F3 only if an EARLIER operation of the same run met F3's precondition".into(),
+                                "one live Dispatch at a time, one fresh thread per stack run; both sides of a pair use callsites of the same class in the same cache state (both fresh, or the same already-registered callsite)".into(),
             ],
             min_evals: args.tier.pick(900_000, 8_000_000),
             min_distinct: args.tier.pick(250_000, 1_700_000),
